@@ -369,7 +369,7 @@ Proof.
   - (* ICopyTangents *)
     injection Hstep as E1 E2 E3; subst. destruct Hwf as [_ [_ [_ [_ [_ Htan]]]]]. split.
     + constructor; [|constructor; [|constructor]]; cbn [in_bounds]; intros Hlt.
-      * split; [lia|]. apply Z.mul_div_le. lia.
+      * split; [lia|]. change (4 * (tanLen m / 4) <= tanLen m). apply Z.mul_div_le. lia.
       * lia.
     + intros _. unfold holds; cbn [learn]. tauto.
   - (* INormaliseRuns *)
@@ -392,8 +392,7 @@ Proof.
     apply tri_loop_ok in Et; [| exact HMG' | lia | rewrite Ent; lia | | constructor].
     + destruct Et as [Ha Hk]. split; [exact Ha|]. intros _.
       unfold holds; cbn [learn]; cbn [fNumProp fMergeLen fTransLen fFaceLen fTanLen fNorm fShape fMergeGe fTriDone ri p2v p2vOn kept]. splits; try assumption. intros _. exact Hk.
-    + rewrite Eq. pose proof (zlen_nonneg _ (triVerts m)).
-      rewrite Z.mul_comm. apply Z.mul_div_le. lia.
+    + rewrite Eq. apply Z.mul_div_le. lia.
   - (* ICreateHalfedges *)
     injection Hstep as E1 E2 E3; subst. split; [constructor|]. intros _. unfold holds; cbn [learn]. tauto.
   - (* IPost *)
@@ -412,10 +411,11 @@ Proof.
         destruct (numTriI_small m Hs) as [Eq _].
         destruct HTA as [HTA | HTA].
         -- rewrite HTA in E4. cbn in E4. congruence.
-        -- rewrite HTA. rewrite Z.mul_comm, Z.div_mul by lia.
+        -- rewrite HTA.
+           replace (4 * runEnd m / 4) with (runEnd m)
+             by (symmetry; rewrite Z.mul_comm; apply Z.div_mul; lia).
            assert (3 * numTriI m <= runEnd m).
-           { rewrite Eq. unfold runEnd. pose proof (zlen_nonneg _ (triVerts m)).
-             rewrite Z.mul_comm. apply Z.mul_div_le. lia. }
+           { rewrite Eq. unfold runEnd. apply Z.mul_div_le. lia. }
            lia.
     + intros _. unfold holds; cbn [learn]. tauto.
 Qed.
@@ -532,13 +532,14 @@ Proof.
   - cbn [run states]. unfold fires at 1, next_st.
     destruct (step it m o s) as [[oe s'] a] eqn:Est. cbn [fst snd].
     destruct oe as [e|].
-    + cbn [fst]. exists [], it, t, s. cbn. repeat split; try constructor.
+    + cbn [fst]. exists [], it, t, s. cbn [app length firstn nth_error].
+      split; [reflexivity|]. split; [constructor|]. split; [reflexivity|].
       unfold fires. rewrite Est. reflexivity.
     + specialize (IH m o s'). destruct (run t m o s') as [v a']. cbn [fst] in *.
       destruct v as [e|].
       * destruct IH as [pre [it' [post [sp [Et [Hpre [Hnth Hf]]]]]]].
         exists (it :: pre), it', post, sp. subst t. cbn [app length firstn nth_error].
-        splits; try assumption.
+        splits; try assumption; [reflexivity|].
         constructor; [|exact Hpre]. unfold fires. rewrite Est. reflexivity.
       * constructor; [|exact IH]. unfold fires. rewrite Est. reflexivity.
 Qed.
@@ -556,4 +557,14 @@ Proof.
   induction rs as [|[r e] rs IH]; intros m o s; [reflexivity|].
   cbn [map run step fst snd first_rung]. destruct (cond r m s); [reflexivity|].
   specialize (IH m o s). destruct (run (map (fun re => IRung (fst re) (snd re)) rs) m o s). exact IH.
+Qed.
+
+Lemma example_cube :
+  wf cube_mesh /\ small cube_mesh /\ ladder patched_table cube_mesh o_cube = Accepted /\
+  ladder pinned_table cube_mesh o_cube = Accepted /\
+  List.length (accesses patched_table cube_mesh o_cube) = 174%nat.
+Proof.
+  split; [apply (wf_small_cube_like [] 0 0 3); lia|].
+  split; [apply (wf_small_cube_like [] 0 0 3); lia|].
+  repeat split; vm_compute; reflexivity.
 Qed.
